@@ -207,6 +207,9 @@ def parse_res_string(res_str: str) -> _T_RESIDUE_TUPLE:
             inscode = resnum_str[-1]
     else:
         inscode = " "
+    # atoms of a chain without identifier carry the chain id "_"
+    # (see Atom.set_properties); accept " " (as for --chain) and "" here
+    chain = chain.strip() or "_"
     return chain, resnum, inscode
 
 
